@@ -38,7 +38,7 @@ RBQL_WORDS = set('select update join inner left outer strict order by where limi
 
 
 def is_identifier(name):
-    return re.match(r'^[_a-zA-Z][_a-zA-Z0-9]*$', name) is not None
+    return re.fullmatch(r'[_a-zA-Z][_a-zA-Z0-9]*', name) is not None
 
 
 def attr_safe(name):
